@@ -17,6 +17,11 @@ class HandlerBoom(Exception):
     """Exception injected into application handlers."""
 
 
+class HandlerBoomBase(BaseException):
+    """Injected handler failure that is not an Exception subclass (what
+    eventlet.Timeout, gevent.Timeout or greenlet.GreenletExit are)."""
+
+
 class Ticket:
     """Outcome of one asynchronous action (request, API call)."""
     def __init__(self, sim, kind, info=None):
@@ -101,6 +106,15 @@ class SimBase:
         self.connect_script = list(self.cfg.get('connect', []))
         self.nconnect = 0
         self.boom = dict(self.cfg.get('boom', {}))   # event index -> True
+        # 'boom_base': injected failures derive from BaseException only
+        # 'legacy_disconnect': the disconnect handler takes (sid) only - its
+        #     reason is then unobservable and logged as '?legacy'
+        # 'suspend': {'message'|'disconnect': dt} - the handler blocks /
+        #     awaits for dt of virtual time after it has been entered
+        self.boom_exc = HandlerBoomBase if self.cfg.get('boom_base') \
+            else HandlerBoom
+        self.legacy_disconnect = bool(self.cfg.get('legacy_disconnect'))
+        self.suspend = dict(self.cfg.get('suspend', {}))
         self.nevent = 0
         self.sid_order = {}
         self.on_event = None
@@ -130,25 +144,37 @@ class SimBase:
             return out
         return None
 
-    def _h_message(self, sid, data):
+    # the message / disconnect handlers are split in "entered" (logged: the
+    # event has fired) and "leaving" (where an injected failure is raised) so
+    # that the simulators can suspend the handler in between
+    def _log_message(self, sid, data):
         i = self.nevent
         self.nevent += 1
         self.events.append({'clk': self.tick(), 't': self.now, 'ev': 'message',
                             'sid': sid, 'data': data})
         if self.on_event:
             self.on_event('message', sid, data)
-        if self.boom.get('message:%d' % i) or self.boom.get('message:*'):
-            raise HandlerBoom('message')
+        return i
 
-    def _h_disconnect(self, sid, reason):
+    def _log_disconnect(self, sid, reason):
         i = self.nevent
         self.nevent += 1
         self.events.append({'clk': self.tick(), 't': self.now,
                             'ev': 'disconnect', 'sid': sid, 'reason': reason})
         if self.on_event:
             self.on_event('disconnect', sid, reason)
-        if self.boom.get('disconnect:%d' % i) or self.boom.get('disconnect:*'):
-            raise HandlerBoom('disconnect')
+        return i
+
+    def _maybe_boom(self, ev, i):
+        if self.boom.get('%s:%d' % (ev, i)) or self.boom.get(ev + ':*'):
+            self.nboom = getattr(self, 'nboom', 0) + 1
+            raise self.boom_exc(ev)
+
+    def _h_message(self, sid, data):
+        self._maybe_boom('message', self._log_message(sid, data))
+
+    def _h_disconnect(self, sid, reason):
+        self._maybe_boom('disconnect', self._log_disconnect(sid, reason))
 
     def events_of(self, sid):
         return [e for e in self.events if e['sid'] == sid]
